@@ -1,9 +1,9 @@
 (* C11 — property theorems only.  The model (Model/C11_etag.v) is instantiated with the pattern
    parameters REGENERATED from the live webob patterns (Gen/C11_rx.v); Spec/C11_taglist.v says what
    an RFC 7232 entity-tag list is.  Each theorem is closed by [exact] of a lemma of Proofs/C11_etag.v. *)
-From Coq Require Import NArith ZArith List Bool String.
+From Coq Require Import NArith ZArith List Bool String Lia ZifyBool ZifyN.
 Require Import Webob.Lib.Val Webob.Lib.Rx Webob.Gen.C11_rx Webob.Model.C11_etag Webob.Spec.C11_taglist
-               Webob.Proofs.C11_etag.
+               Webob.Proofs.C11_etag Webob.Lib.PyStr Webob.Model.C11_str Webob.Proofs.C11_str.
 Import ListNotations.
 Local Open Scope N_scope.
 
@@ -180,3 +180,121 @@ Print Assumptions C11_getter_malformed.
 Example C11_getter_malformed_example :
   [97; 44; 32; 98] <> [] /\ [97; 44; 32; 98] <> STAR /\ findall lst_cfg [97; 44; 32; 98] = [].
 Proof. repeat split; try discriminate. Qed.
+
+(* ====================================================================== the WRITTEN form of a matcher
+   Model/C11_str.v: str(AnyETag) / str(NoETag) / ETagMatcher.__str__ / etag_property.fset.
+   Alphabet: the theorems hold for every tag WITHOUT DQUOTE (tag_ok; commas, spaces, backslashes, W/,
+   STAR, the empty tag, obs-text and beyond), which contains the legal RFC 7232 alphabet
+   etagc = %x21 / %x23-7E / %x80-FF.  Excluded: DQUOTE only (see C11_matcher_str_dq_refuted). *)
+
+(* ETagMatcher.parse(str(ETagMatcher(l)), strong) = ETagMatcher(l): same tags, same order, both modes *)
+Theorem C11_matcher_str_parse : forall strong l,
+  Forall tag_ok l -> matcher_parse strong (matcher_str (MTags l)) = MTags l.
+Proof. exact matcher_str_parse. Qed.
+Print Assumptions C11_matcher_str_parse.
+
+(* t in parse(str(m)) iff t in m *)
+Theorem C11_matcher_str_in : forall strong l t,
+  Forall tag_ok l ->
+  (contains (matcher_parse strong (matcher_str (MTags l))) (Some t) = true <-> In t l).
+Proof. exact matcher_str_in. Qed.
+Print Assumptions C11_matcher_str_in.
+
+(* for all three kinds of matcher and every probe (incl. None) *)
+Theorem C11_matcher_str_contains : forall strong m p,
+  matcher_ok m -> contains (matcher_parse strong (matcher_str m)) p = contains m p.
+Proof. exact matcher_str_contains. Qed.
+Print Assumptions C11_matcher_str_contains.
+
+(* the same two statements on the legal alphabet *)
+Theorem C11_matcher_str_parse_etagc : forall strong l,
+  Forall etagc_tag l ->
+  matcher_parse strong (matcher_str (MTags l)) = MTags l /\
+  (forall t, contains (matcher_parse strong (matcher_str (MTags l))) (Some t) = true <-> In t l).
+Proof. exact matcher_str_parse_etagc. Qed.
+Print Assumptions C11_matcher_str_parse_etagc.
+
+(* hypotheses satisfiable: a comma-free legal list  a\ , W/x , * , (empty) , e-acute ;
+   and a tag_ok list with comma + space inside a tag *)
+Example C11_matcher_str_example :
+  Forall etagc_tag [[97; 92]; [87; 47; 120]; [42]; []; [233]] /\ Forall tag_ok [[97; 44; 32; 98]; []].
+Proof.
+  split.
+  - repeat (apply Forall_cons; [unfold etagc_tag; repeat (apply Forall_cons; [unfold etagc; lia |]); apply Forall_nil |]).
+    apply Forall_nil.
+  - repeat (apply Forall_cons; [unfold tag_ok; cbn; intuition discriminate |]). apply Forall_nil.
+Qed.
+
+(* DQUOTE must be excluded: __str__ does not escape, the scanner ends the tag at it *)
+Theorem C11_matcher_str_dq_refuted : exists l t,
+  In t l /\ contains (matcher_parse true (matcher_str (MTags l))) (Some t) = false.
+Proof. exact matcher_str_dq_refuted. Qed.
+Print Assumptions C11_matcher_str_dq_refuted.
+
+(* req.if_none_match = m ; then `p in req.if_none_match` = `p in m`, for every matcher *)
+Theorem C11_inm_set_get : forall m p,
+  matcher_ok m -> contains (if_none_match (etag_fset (SVMatcher m))) p = contains m p.
+Proof. exact inm_set_get. Qed.
+Print Assumptions C11_inm_set_get.
+
+(* req.if_match = m ; then `p in req.if_match` = `p in m`, for AnyETag and every NON-EMPTY tag list *)
+Theorem C11_im_set_get : forall m p,
+  matcher_ok m -> m <> MNo -> m <> MTags [] ->
+  contains (if_match (etag_fset (SVMatcher m))) p = contains m p.
+Proof. exact im_set_get. Qed.
+Print Assumptions C11_im_set_get.
+
+Theorem C11_getter_after_set : forall default strong t l,
+  Forall tag_ok (t :: l) ->
+  etag_getter default strong (etag_fset (SVMatcher (MTags (t :: l)))) = MTags (t :: l).
+Proof. exact getter_after_set. Qed.
+Print Assumptions C11_getter_after_set.
+
+Example C11_im_set_get_example :
+  matcher_ok (MTags [[97; 44; 32; 92]]) /\ MTags [[97; 44; 32; 92]] <> MNo /\ MTags [[97; 44; 32; 92]] <> MTags [].
+Proof.
+  split; [| split; discriminate].
+  apply Forall_cons; [unfold tag_ok; cbn; intuition discriminate | apply Forall_nil].
+Qed.
+
+(* the exclusions are necessary: ETagMatcher([]) and NoETag are written as "" and the If-Match getter
+   reads an empty header as absent = AnyETag -- "matches nothing" becomes "matches everything" *)
+Theorem C11_im_set_get_empty_refuted : exists m p,
+  matcher_ok m /\ contains m p = false /\ contains (if_match (etag_fset (SVMatcher m))) p = true.
+Proof. exact im_set_get_empty_refuted. Qed.
+Print Assumptions C11_im_set_get_empty_refuted.
+
+Theorem C11_im_set_get_noetag_refuted : exists p,
+  contains MNo p = false /\ contains (if_match (etag_fset (SVMatcher MNo))) p = true.
+Proof. exact im_set_get_noetag_refuted. Qed.
+Print Assumptions C11_im_set_get_noetag_refuted.
+
+(* serialize_etag_response -> parse_etag_response = id (the W/ prefix written iff not strong; the strong
+   reader drops a weak tag), for values without DQUOTE / CR / LF, and restated on etagc *)
+Theorem C11_ser_parse_id : forall a,
+  tag_ok (arg_value a) -> no_crlf (arg_value a) ->
+  serialize_etag_response a = render_tag (negb (arg_strong a), arg_value a) /\
+  parse_etag_response false (Some (serialize_etag_response a)) = Some (arg_value a) /\
+  parse_etag_response true (Some (serialize_etag_response a)) =
+    (if arg_strong a then Some (arg_value a) else None).
+Proof. exact ser_parse_id. Qed.
+Print Assumptions C11_ser_parse_id.
+
+Theorem C11_ser_parse_id_etagc : forall a,
+  etagc_tag (arg_value a) ->
+  set_etag a = Some (serialize_etag_response a) /\
+  parse_etag_response false (Some (serialize_etag_response a)) = Some (arg_value a) /\
+  parse_etag_response true (Some (serialize_etag_response a)) =
+    (if arg_strong a then Some (arg_value a) else None).
+Proof. exact ser_parse_id_etagc. Qed.
+Print Assumptions C11_ser_parse_id_etagc.
+
+Example C11_ser_parse_example : etagc_tag (arg_value (EPair [87; 47; 97; 92] false)).
+Proof. unfold etagc_tag. cbn [arg_value]. repeat (apply Forall_cons; [unfold etagc; lia |]). apply Forall_nil. Qed.
+
+(* a bare string that already has the entity-tag shape (so contains DQUOTE) is stored as it is and read
+   back without its quotes: DQUOTE is excluded for a reason *)
+Theorem C11_ser_parse_dq_refuted : exists v,
+  parse_etag_response false (Some (serialize_etag_response (EStr v))) <> Some v.
+Proof. exact ser_parse_dq_refuted. Qed.
+Print Assumptions C11_ser_parse_dq_refuted.
